@@ -87,8 +87,10 @@ def rule_xlate(ctx):
                     if n == "compile_with_cont":
                         return Adt("XLATE", "stmt", {"of": v.name, "k": args[1]})
                     return Adt("XLATE", "prd", {"of": v.name})
-            if n == "share" and ck.startswith("fun2core::compile"):
-                return Adt("XLATE", "shared", {"k": args[0]})
+            if n == "share" and ck.startswith("fun2core::"):
+                # the consumer that is shared: the argument that is not the translation state (free function or method of the state)
+                ks = [a for a in args if not (isinstance(I.deref(a), Sym) and I.deref(a).name == "state")]
+                return Adt("XLATE", "shared", {"k": ks[0] if ks else args[0]})
             if n in ("fresh_var", "fresh_covar") and "CompileState" in ck:
                 counter[0] += 1
                 return "fresh%d" % counter[0]
@@ -121,6 +123,9 @@ def rule_xlate(ctx):
     def norm_cont(x):
         return x
 
+    def undetermined(strings):
+        return [s_ for s_ in strings if "?" in s_[:2] or "'$ret:" in s_ or "'?" in s_ or '"?' in s_ or "?<" in s_]
+
     def judge(form, fields, want, label="", **kw):
         f, I, outs, msg = run(form, fields, **kw)
         ikey = "%s%s" % (form.split("::")[-1], label)
@@ -132,7 +137,7 @@ def rule_xlate(ctx):
         if not shown:
             raise AnalysisError("R-XLATE: %s%s did not fold" % (form, label))
         wants = sorted({repr(w) for w in (want if isinstance(want, list) else [want])})
-        if any("?" in s_[:2] or "'$ret:" in s_ for s_ in shown):
+        if undetermined(shown):
             raise AnalysisError("R-XLATE: the translation of %s%s contains a part the interpreter could not determine: %s" % (form, label, shown[0][:300]))
         if shown == wants:
             res.inst(ikey, f["sp"]["file"], f["sp"]["line"], "ok", "%d shape(s)" % len(shown))
@@ -204,6 +209,8 @@ def rule_xlate(ctx):
     allowed = {repr(ifc(("None",), K)), repr(ifc(("None",), SHARED))}
     if msg or not shapes:
         raise AnalysisError("R-XLATE: IfC with a symbolic consumer did not fold")
+    if undetermined(shapes):
+        raise AnalysisError("R-XLATE: the translation of IfC contains a part the interpreter could not determine: %s" % undetermined(shapes)[0][:300])
     if shapes <= allowed and repr(ifc(("None",), SHARED)) in shapes:
         res.inst(ikey, f["sp"]["file"], f["sp"]["line"], "ok", "%d paths: consumer shared unless a leaf" % len(outs))
     else:
@@ -217,6 +224,8 @@ def rule_xlate(ctx):
     want = repr(("Call", ("args", ("Arguments", ("entries", ("vec", ("args", "$self.args"), ("Argument::Consumer", K))))), ("name", idt("f"))))
     if msg or not got:
         raise AnalysisError("R-XLATE: Call did not fold")
+    if undetermined(got):
+        raise AnalysisError("R-XLATE: the translation of Call contains a part the interpreter could not determine: %s" % undetermined(got)[0][:300])
     if got == [want]:
         res.inst(ikey, f["sp"]["file"], f["sp"]["line"], "ok")
     else:
